@@ -239,6 +239,9 @@ def _collect(R, cx, replay_cb=None):
             if 'smt' in ob and len(R['samples']) < 2:
                 R['samples'].append(dict(harness=R['harness'], label=ob['label'], path=ob['path'], negated_goal=ob['smt'], result=res))
             continue
+        if res == 'skipped':
+            R['inconclusive'].append(dict(label=ob['label'], why='not evaluated'))
+            continue
         if replay_cb is None:
             R['inconclusive'].append(dict(label=ob['label'], why='obligation %s on a path that ended abnormally' % res))
             continue
